@@ -424,7 +424,7 @@ def gs_as_blocks(gs, blind=False):
     is a replica on every mount with the same non-blank DeviceID. The desired replication comes from
     the collections as the API server stores them: replication_desired (null = the cluster default)
     for each class of storage_classes_desired (none = default). `blind` erases the classes (what a
-    client that does not select the attribute is given)."""
+    client that does not select the attribute is given; used for diagnosis only)."""
     svcs = gs["svcs"]
     allm = [(si, mi) for si, s in enumerate(svcs) for mi in range(len(s["mounts"]))]
 
@@ -584,27 +584,13 @@ def _oracle_block(lay, impl):
 
 
 # ----------------------------------------------------------------------------- findings
-# F1, F2, F12 and F05a were repaired by fix: commits in /repo (harness/props/C05.findings.json, status
+# F1, F2, F12, F05a and F05b were repaired by fix: commits in /repo (harness/props/C05.findings.json, status
 # "fixed"); their witnesses are in corpus/C05 and must pass. There is no finding_of: any failure of
 # any clause on any layout is a VIOLATION.
 
 
-def finding_of(case, impl, why, model=None):
-    """F05b: EachCollection does not select storage_classes_desired, so keep-balance never learns the
-    classes a collection asks for. Matched only for a sweep case (op gs) in which some collection asks
-    for a class other than default, the failing clause is the under-replication or the safety clause,
-    the implementation behaves exactly as the model of the current code, and the same output passes
-    every clause when judged against the class-blind reading of the collections."""
-    if not case.startswith("gs ") or not why or not why.startswith(("unsafe:", "underrep:")):
-        return None
-    gs = parse_gs(case)
-    if gs is None or not any(c["classes"] and c["classes"] != ["default"] for c in gs["colls"]):
-        return None
-    if model is not None and not compare(case, impl, model):
-        return None
-    if _oracle_gs(case, impl, blind=True) is not None:
-        return None
-    return "F05b"
+# F05b (EachCollection did not select storage_classes_desired) was repaired by a fix: commit as well; its
+# witnesses (op gs) are in corpus/C05 and must pass.
 
 
 # ----------------------------------------------------------------------------- generator
